@@ -157,67 +157,69 @@ theorem trivial_no_write (c : Cfg) (htriv : c.trivCtor = true) :
     (∀ i a es, NoCtor ((Op.ctorExt i a es).run c)) ∧
     (∀ i es, NoCtor ((Op.reextent i es).run c)) ∧
     (∀ i es, NoCtor ((Op.reextentRv i es).run c)) := by
+  have hq := quiet_ctor
+  have ha := isCtor_alloc
   refine ⟨?_, ?_, ?_⟩
   · intro i a es
     show NoCtor (ctorWith c i a es (!c.trivCtor) 0)
     rw [htriv]
     unfold ctorWith
-    exact NoCtor.bind (NoCtor.build_false c _ _ _) (fun p => NoCtor.setSlot _ _)
+    exact NoEv.bind (NoEv.build_false ha c _ _ _) (fun p => NoEv.setSlot _ _)
   · intro i es
     show NoCtor (opReextent c i es false)
     unfold opReextent
-    apply NoCtor.bind NoCtor.get
+    apply NoEv.bind NoEv.get
     intro s
     cases getArr s i with
-    | none => exact NoCtor.ub
+    | none => exact NoEv.ub
     | some x =>
       simp only [htriv, Bool.not_true, Bool.or_false, Bool.false_eq_true, if_false]
-      apply NoCtor.ite (NoCtor.pure ())
-      apply NoCtor.ite
-      · apply NoCtor.bind (NoCtor.buildSafe_false c _ _)
+      apply NoEv.ite (NoEv.pure ())
+      apply NoEv.ite
+      · apply NoEv.bind (NoEv.buildSafe_false ha c _ _)
         intro p
-        apply NoCtor.bind
-        · apply NoCtor.tryCatch
-          · exact NoCtor.bind (NoCtor.readCells c _ _) (fun _ => NoCtor.assignAll c _ _)
-          · exact NoCtor.bind (NoCtor.destroyAll c _ _) (fun _ => NoCtor.bind (NoCtor.deallocate c _ _ _) (fun _ => NoCtor.rethrow))
+        apply NoEv.bind
+        · apply NoEv.tryCatch
+          · exact NoEv.bind (NoEv.readCells c _ _) (fun _ => NoEv.assignAll hq c _ _)
+          · exact NoEv.bind (NoEv.destroyAll hq c _ _) (fun _ => NoEv.bind (NoEv.deallocate hq c _ _ _) (fun _ => NoEv.rethrow))
         · intro _
-          apply NoCtor.bind (NoCtor.pure p)
+          apply NoEv.bind (NoEv.pure p)
           intro q
-          exact NoCtor.bind (NoCtor.destroyAll c _ _) (fun _ => NoCtor.bind (NoCtor.deallocate c _ _ _) (fun _ => NoCtor.setSlot _ _))
-      · apply NoCtor.bind (NoCtor.allocate _ _)
+          exact NoEv.bind (NoEv.destroyAll hq c _ _) (fun _ => NoEv.bind (NoEv.deallocate hq c _ _ _) (fun _ => NoEv.setSlot _ _))
+      · apply NoEv.bind (NoEv.allocate ha _ _)
         intro p
-        apply NoCtor.bind (NoCtor.readCells c _ _)
+        apply NoEv.bind (NoEv.readCells c _ _)
         intro _
-        apply NoCtor.bind (NoCtor.assignAll c _ _)
+        apply NoEv.bind (NoEv.assignAll hq c _ _)
         intro _
-        apply NoCtor.bind (NoCtor.pure p)
+        apply NoEv.bind (NoEv.pure p)
         intro q
-        exact NoCtor.bind (NoCtor.destroyAll c _ _) (fun _ => NoCtor.bind (NoCtor.deallocate c _ _ _) (fun _ => NoCtor.setSlot _ _))
+        exact NoEv.bind (NoEv.destroyAll hq c _ _) (fun _ => NoEv.bind (NoEv.deallocate hq c _ _ _) (fun _ => NoEv.setSlot _ _))
   · intro i es
     show NoCtor (opReextentRv c i es)
     unfold opReextentRv
-    apply NoCtor.bind NoCtor.get
+    apply NoEv.bind NoEv.get
     intro s
     cases getArr s i with
-    | none => exact NoCtor.ub
+    | none => exact NoEv.ub
     | some x =>
       simp only [htriv, Bool.not_true, Bool.false_eq_true, if_false]
-      apply NoCtor.ite (NoCtor.pure ())
-      apply NoCtor.ite
-      · apply NoCtor.bind (NoCtor.clearArr c i x)
+      apply NoEv.ite (NoEv.pure ())
+      apply NoEv.ite
+      · apply NoEv.bind (NoEv.clearArr hq c i x)
         intro x1
-        apply NoCtor.bind (NoCtor.buildSafe_false c _ _)
+        apply NoEv.bind (NoEv.buildSafe_false ha c _ _)
         intro p
-        exact NoCtor.setSlot _ _
-      · apply NoCtor.bind (NoCtor.destroyAll c _ _)
+        exact NoEv.setSlot _ _
+      · apply NoEv.bind (NoEv.destroyAll hq c _ _)
         intro _
-        apply NoCtor.bind (NoCtor.deallocate c _ _ _)
+        apply NoEv.bind (NoEv.deallocate hq c _ _ _)
         intro _
-        apply NoCtor.bind (NoCtor.setSlot _ _)
+        apply NoEv.bind (NoEv.setSlot _ _)
         intro _
-        apply NoCtor.bind (NoCtor.allocate _ _)
+        apply NoEv.bind (NoEv.allocate ha _ _)
         intro p
-        exact NoCtor.setSlot _ _
+        exact NoEv.setSlot _ _
 
 /-! ### non-vacuity: the hypotheses are satisfiable, the invariant is not trivially true -/
 
